@@ -52,8 +52,20 @@ Proof. exact Controls.c19_whoami_resp. Qed.
 Theorem c19_passmod_response : forall g bs, Utf8.valid g = true -> BerEnc (seq [P Context 0 g]) bs -> parse_passmod_resp bs = Ok g.
 Proof. exact Controls.c19_passmod_resp. Qed.
 
+(* repair F39: the response value with genPasswd absent (RFC 3062: OPTIONAL) *)
+Theorem c19_passmod_resp_absent : forall bs, BerEnc (seq []) bs -> parse_passmod_resp bs = Ok [].
+Proof. exact Controls.c19_passmod_resp_absent. Qed.
+Theorem c19_refuted_F39 : parse_value (parse_passmod_resp_gen false) [x30; x00] = Panic /\ parse_passmod_resp [x30; x00] = Ok [].
+Proof. exact Controls.c19_refuted_F39. Qed.
+(* known finding F40: octet strings held as Strings *)
+Theorem c19_refuted_F40 : parse_utf8_val [xff] = Panic /\ parse_passmod_resp [x30; x03; x80; x01; xff] = Panic.
+Proof. exact Controls.c19_refuted_F40. Qed.
+
 Print Assumptions c19_paged_request. Print Assumptions c19_sync_request. Print Assumptions c19_read_entry_request.
 Print Assumptions c19_assertion. Print Assumptions c19_passmod_request. Print Assumptions c19_end_txn_request.
 Print Assumptions c19_criticality. Print Assumptions c19_consts_agree_with_source.
 Print Assumptions c19_paged_response. Print Assumptions c19_sync_state. Print Assumptions c19_sync_done. Print Assumptions c19_sync_info.
 Print Assumptions c19_read_entry_response. Print Assumptions c19_whoami_starttxn_response. Print Assumptions c19_passmod_response.
+Print Assumptions c19_passmod_resp_absent.
+Print Assumptions c19_refuted_F39.
+Print Assumptions c19_refuted_F40.
